@@ -41,7 +41,7 @@ func (World) Stub(prop string) []string {
 	case "C43":
 		return []string{"throttler wrapper: delegates to the real NumGoRoutinesThrottler, parks the caller before CanProcess / StartProcessing / EndProcessing and counts running tasks",
 			"scheduler: testing/synctest bubble + simkit.Parker; the plan releases one parked goroutine at a time, synctest.Wait() is the barrier",
-			"intercepted-data factory, intercepted data, interceptor processor (parks in Validate and Save), antiflood handler (CanProcessMessage refuses planned messages; BlacklistPeer counted), whitelist handler, preferred-peers holder (empty), trie data getter (parks per node), topic resolver sender (parks in Send), p2p messages"}
+			"intercepted-data factory, intercepted data, interceptor processor (parks in Validate and Save), antiflood handler (CanProcessMessage refuses planned messages; BlacklistPeer counted), whitelist handler, preferred-peers holder (Contains = planned set of preferred peer ids), trie data getter (parks per node), topic resolver sender (parks in Send), p2p messages"}
 	}
 	return nil
 }
@@ -57,10 +57,10 @@ func (World) Assumptions(prop string) []string {
 		}
 	case "C43":
 		return []string{
-			"every generated message asks the throttler: no self-to-self and no preferred-peer messages (those skip CanProcess by design)",
+			"the bound applies to tasks received over regular connections: a message received over the connection of a preferred peer skips CanProcess by design and is not counted (it still occupies the real counter); a message ORIGINATED by a preferred peer but relayed over a regular connection is counted like any other; no self-to-self messages; the resolver has no exemption",
 			"a task is 'running' from the return of StartProcessing to its call of EndProcessing, as seen by the wrapper (attributed per task; a second EndProcessing of the same task is ignored); a task parked at the EndProcessing seam no longer counts; a task found inside a work seam (processor, trie read, send) after its EndProcessing still counts (kind work-after-end)",
 			"interleavings are decided at seam granularity (throttler calls, processor calls, trie reads, sends)",
-			"classification: the start that pushes the count above max is 'started-after-refusal' if that task's CanProcess had returned false, 'over-admission-sequential' if the count was already >= max when its CanProcess returned true, otherwise 'check-then-act' (another task started between its check and its start)",
+			"classification: the start that pushes the count above max is 'started-without-asking' if that task never called CanProcess, 'started-after-refusal' if that task's CanProcess had returned false, 'over-admission-sequential' if the count was already >= max when its CanProcess returned true, otherwise 'check-then-act' (another task started between its check and its start)",
 			"a task whose EndProcessing is never called is not a violation of this property (the count only stays high)",
 		}
 	}
@@ -70,9 +70,9 @@ func (World) Assumptions(prop string) []string {
 func (World) Rule(prop string) string {
 	switch prop {
 	case "C42":
-		return "constructor arguments over everything NewQuotaFloodPreventer accepts (base messages 1..2^31, byte quota 1..2^62, reserved 0..90 % (0 in half of the runs), increase factor >= 0 dyadic or arbitrary, threshold 0..50), LRU or size-LRU cacher with capacity >= peers; 20-300 events IncreaseLoad(peer,size) | Reset | ApplyConsensusSize(n) over 1-6 peers, sizes 0 .. beyond the byte quota; non-trivial = some peer was refused after having been accepted (a quota was reached); distinct = hash of full plan; states = (peer, accepted count, accepted bytes) at refusals"
+		return "20 % of the runs: byte quota 2^25..2^41 placed next to / just above the midpoint between two 32-bit floats, no reserved percentage, per peer a small first message + 1-3 large messages filling the quota to within a few bytes + 8-40 tiny messages; other runs: constructor arguments over everything NewQuotaFloodPreventer accepts (base messages 1..2^31, byte quota 1..2^62, reserved 0..90 % (0 in half of the runs), increase factor >= 0 dyadic or arbitrary, threshold 0..50), LRU or size-LRU cacher with capacity >= peers; 20-300 events IncreaseLoad(peer,size) | Reset | ApplyConsensusSize(n) over 1-6 peers, sizes 0 .. beyond the byte quota; non-trivial = some peer was refused after having been accepted (a quota was reached); distinct = hash of full plan; states = (peer, accepted count, accepted bytes) at refusals"
 	case "C43":
-		return "component = SingleDataInterceptor | MultiDataInterceptor | TrieNodeResolver, max 1-3, 2-6 tasks (goroutines calling ProcessReceivedMessage) with message variants (ok with 1-3 items, undecodable, one item failing CheckValidity with a generic error / process.ErrInvalidTransactionVersion / process.ErrInvalidChainID (the blacklisting path), other shard, refused by antiflood, processor error), steps spawn(task) | release(i-th parked goroutine; negative = from the most recently parked) inside a synctest bubble; 35 % of the runs are poison-then-burst: 1-3 failing messages processed to their end, then max+1..max+2 valid messages admitted one after the other while their processing stays parked; non-trivial = some CanProcess was evaluated while another task was admitted or running; distinct = hash of full plan; states = (running, in-window) pairs seen at CanProcess"
+		return "component = SingleDataInterceptor | MultiDataInterceptor | TrieNodeResolver, max 1-3, 2-6 tasks (goroutines calling ProcessReceivedMessage) with message variants (ok with 1-3 items, undecodable, one item failing CheckValidity with a generic error / process.ErrInvalidTransactionVersion / process.ErrInvalidChainID (the blacklisting path), other shard, refused by antiflood, processor error), per message the connection (regular | preferred peer, 10 %) and the originator (regular | preferred peer, 15 %) are planned independently, steps spawn(task) | release(i-th parked goroutine; negative = from the most recently parked) inside a synctest bubble; 35 % of the runs are poison-then-burst: 1-3 failing messages processed to their end, then max+1..max+2 valid messages admitted one after the other while their processing stays parked; non-trivial = some CanProcess was evaluated while another task was admitted or running; distinct = hash of full plan; states = (running, in-window) pairs seen at CanProcess"
 	}
 	return ""
 }
